@@ -28,6 +28,8 @@ func (f fault) String() string {
 		return fmt.Sprintf("fsize=%d", f.FSize)
 	case "input":
 		return fmt.Sprintf("input:%s@%d", f.Input, f.Target)
+	case "dir-inject":
+		return fmt.Sprintf("dir-inject:%s:%s:variant=%d", f.Syscall, f.Errno, f.Target)
 	case "stdout-fsize":
 		return fmt.Sprintf("stdout-fsize=%d:mode=%d", f.FSize, f.Target)
 	case "stdout-inject":
@@ -123,6 +125,14 @@ func c16Faults(tier string) []fault {
 	for _, in := range c16Inputs {
 		for t := 0; t < 6; t++ {
 			out = append(out, fault{Kind: "input", Input: in, Target: t})
+		}
+	}
+	// (d) a directory below a requested path cannot be listed
+	for _, sc := range []string{"openat", "getdents64"} {
+		for _, e := range []string{"EACCES", "EIO"} {
+			for t := 0; t < 4; t++ {
+				out = append(out, fault{Kind: "dir-inject", Syscall: sc, Errno: e, When: 1, Target: t})
+			}
 		}
 	}
 	// (c) dry-run modes: standard output is a file, and writing it fails or is cut short (gopatch --print-only ... > new.go)
@@ -291,11 +301,69 @@ func runC16Stdout(ctx *core.Ctx, idx int, ft fault) *core.Result {
 	return res
 }
 
+// runC16Dir: a directory below a requested path cannot be listed (its open or its getdents64 fails). The Go files in
+// it were requested and could not be processed: the run must not look like a success, and must name the directory.
+func runC16Dir(ctx *core.Ctx, idx int, ft fault) *core.Result {
+	res := &core.Result{}
+	r := ctx.Rand("c16dir", idx)
+	g := gen.NewG(r)
+	base, _ := os.MkdirTemp(ctx.Tmp, "c16d")
+	defer os.RemoveAll(base)
+	tree := filepath.Join(base, "tree")
+	patch := "@@\nvar x expression\n@@\n-bump(x)\n+bump(x + 1)\n"
+	os.WriteFile(filepath.Join(base, "p.patch"), []byte(patch), 0o644)
+	locked := []string{"locked", "a/locked", "pkg/deep/locked", "zlast"}[ft.Target%4]
+	src := map[string]string{}
+	for _, nme := range []string{"top.go", "a/one.go", "pkg/two.go", "pkg/deep/three.go", locked + "/hidden.go", "zz/after.go"} {
+		s := g.File(gen.FileOpts{Plants: []gen.Plant{{Kind: "expr", Text: "bump(" + g.Atom() + ")"}}, Decls: 1 + r.Intn(3)})
+		src[nme] = s
+		os.MkdirAll(filepath.Dir(filepath.Join(tree, nme)), 0o755)
+		os.WriteFile(filepath.Join(tree, nme), []byte(s), 0o644)
+	}
+	args := [][]string{{tree}, {tree + "/..."}, {filepath.Join(tree, "top.go"), tree}}[r.Intn(3)]
+	cr, _, raw := ctx.RunCLIStrace(core.CLIOpts{Dir: tree, Args: append([]string{"-p", "../p.patch"}, args...), Env: []string{"GOMAXPROCS=1"}},
+		"-P", filepath.Join(tree, locked), "-e", fmt.Sprintf("inject=%s:error=%s:when=%d", ft.Syscall, ft.Errno, ft.When))
+	res.Evals++
+	stderr := string(cr.Stderr)
+	rep := map[string]string{"fault.txt": ft.String() + "\nlocked directory: " + locked + "\nargs: " + strings.Join(args, " "), "p.patch": patch, "stderr.txt": stderr, "strace.txt": core.Trunc(raw, 20000)}
+	if cc := cr.CrashClass(); cc != "" {
+		res.Violate("C16/"+cc, stderr, rep)
+		return res
+	}
+	if !strings.Contains(raw, "INJECTED") {
+		res.Ob("faults-not-reached:dir-inject", 1)
+		return res
+	}
+	res.Ob("faults-fired:dir-inject", 1)
+	res.Sig("dir-inject", ft.Syscall, ft.Errno, locked, len(args))
+	for nme, s := range src {
+		b, _ := os.ReadFile(filepath.Join(tree, nme))
+		if got := string(b); got != s && !strings.Contains(got, "+ 1)") {
+			res.Violate("C16/half-written-file", nme, rep)
+			return res
+		}
+	}
+	if cr.Exit == 0 {
+		res.Violate("C16/exit-0-although-not-everything-was-processed", fmt.Sprintf("[%s] the directory %s could not be listed, exit 0, stderr %q", ft, locked, core.Trunc(stderr, 200)), rep)
+		return res
+	}
+	if !strings.Contains(stderr, locked) {
+		res.Violate("C16/stderr-does-not-name-path", fmt.Sprintf("[%s] stderr does not mention %q: %s", ft, locked, core.Trunc(stderr, 300)), rep)
+	} else if low := strings.ToLower(stderr); !strings.Contains(low, "permission denied") && !strings.Contains(low, "input/output error") {
+		res.Violate("C16/stderr-does-not-name-cause", fmt.Sprintf("[%s] %s", ft, core.Trunc(stderr, 300)), rep)
+	}
+	res.Sample(map[string]any{"fault": ft.String(), "locked": locked, "exit": cr.Exit, "stderr": core.Trunc(stderr, 300)})
+	return res
+}
+
 func runC16(ctx *core.Ctx, idx int) *core.Result {
 	res := &core.Result{}
 	ft := c16Faults(ctx.Tier)[idx]
 	if strings.HasPrefix(ft.Kind, "stdout-") {
 		return runC16Stdout(ctx, idx, ft)
+	}
+	if ft.Kind == "dir-inject" {
+		return runC16Dir(ctx, idx, ft)
 	}
 	r := ctx.Rand("c16", idx)
 	g := gen.NewG(r)
